@@ -428,6 +428,22 @@ ODD_OPTIONS = [
 ]
 
 
+def absurd_set_token(t, cif_list=False):
+    """a set argument that the LIST parser reads as a negative or huge number: hwloc_bitmap_list_sscanf uses
+    strtoul, so "-3" is 2^64-3, truncated to the bit index 2^32-3; "2--3" is then a range of 2^32 bits (half a
+    gigabyte of bitmap that hwloc-calc spends minutes building and printing).  Same rule as ocaml/drv_c20.ml."""
+    if re.search(r"[:=]", t):
+        return False
+    u = t[1:] if t[:1] in ("~", "x", "^") else t
+    if u in ("all", "root"):
+        return False
+    if u.lower().startswith("0x") and not cif_list:
+        return False
+    if "-" not in u and not cif_list:
+        return False
+    return bool(re.search(r"(^|[^0-9])-[0-9]|[0-9]{7}|0[xX][0-9a-fA-F]{6}", u))
+
+
 def mutate(rng, s):
     chars = ":=.[]-~x^,0123456789afxX lLgG"
     b = list(s)
@@ -480,7 +496,7 @@ def gen_stdin_case(rng, info, mem=False, hang=None):
             bad = [t for t in (gen_malformed_loc(rng, info) for _ in range(3))
                    if t and not any(c in t for c in " \n\t\r\x00") and not (hang and hang([t]))
                    # no absurd bit indexes in set-like tokens ("-9" is the list 2^64-9, "0-4294967295" half a gigabyte of bitmap)
-                   and not (not re.search(r"[:=]", t) and re.search(r"(^|[^0-9])-\d|\d{6}", t))]
+                   and not absurd_set_token(t)]
             if r < 0.2:
                 toks = bad or ["zz"]
             else:
